@@ -11,7 +11,7 @@ def run(ctx, args):
     q = ctx.quick
     fails = []
     total = 0
-    for cfg, stride in ((("MC_ProxyC17reqq.cfg", 3), ("MC_ProxyC17resp.cfg", 2)) if q else (("MC_ProxyC17req.cfg", 1), ("MC_ProxyC17resp.cfg", 1))):
+    for cfg, stride in ((("MC_ProxyC17reqq.cfg", 5), ("MC_ProxyC17resp.cfg", 2)) if q else (("MC_ProxyC17req.cfg", 1), ("MC_ProxyC17resp.cfg", 1))):
         beh = os.path.join(ctx.scratch, "recipes_%s.ndjson" % cfg)
         # leg M: the line-level operators of the model commute with regrouping (TwinOK) on every recipe; and emission
         ctx.emit("MC_Proxy", cfg, beh, count=True, timeout=1800)
